@@ -122,12 +122,20 @@ class RG:
             return self.mux(sel, a, b)
         if k < 0.33:
             b = self.lit(self.typ[a])
+            if self.r.random() < 0.3:
+                b = self.blocker(b)          # a blocked constant: retiming must not try to pull a register out of it
         return self.op2(a, b)
 
     def hint(self, v):
         n = self.fresh("h")
         self.emit(f"pipestage {n} {v}")
         self.feat.add("pipestage")
+        return self.define(n, self.typ[v], self.depth[v])
+
+    def blocker(self, v):
+        n = self.fresh("b")
+        self.emit(f"blocker {n} {v}")
+        self.feat.add("retiming-blocker")
         return self.define(n, self.typ[v], self.depth[v])
 
     def reg(self, v, kind="reg", rst=True):
@@ -206,6 +214,8 @@ def t_pipeline(g, ff=False):
         if stages == 0 or (stages < maxstages and r.random() < 0.7):
             o = g.hint(o); stages += 1
         final.append(o)
+    if r.random() < 0.15:
+        final = [g.blocker(o) for o in final]
     if stall:
         g.emit("endenif")
     D = max(g.depth[o] for o in final)
@@ -213,6 +223,42 @@ def t_pipeline(g, ff=False):
         g.out(o, warmD=(D if ff else None), en=en)
     return dict(template="feedforward" if ff else "stateless", expect="ok", warm=ff,
                 claim="from-fill" if ff else "every-cycle")
+
+
+def t_two_groups(g):
+    """two independent balance groups with disjoint cones: each reports its own N"""
+    r = g.r
+    resets = r.random() < 0.8
+    stall = r.random() < 0.3
+    en = None
+    pins = [g.pin(0) for _ in range(r.choice([3, 4]))]
+    if stall:
+        en = g.pin(0)
+        g.emit(f"enif {en}")
+        g.feat.add("stall")
+    outs = []
+    for gi, gname in enumerate(["G", "H"]):
+        mine = pins[:2] if gi == 0 else pins[2:]
+        g.emit(f"pipegroup {gname}")
+        pool = []
+        for p in mine:
+            n = g.fresh("g")
+            g.emit(f"pipein {n} {gname} {p}" + (f" rst {g.rstlit(p)}" if resets else ""))
+            pool.append(g.define(n, g.typ[p]))
+        x = g.combine(pool)
+        x = g.hint(x)
+        if gi == 1 and r.random() < 0.5:
+            x = g.hint(g.op2(x, pool[0]))
+            g.feat.add("reconvergent")
+        outs.append(x)
+    if stall:
+        g.emit("endenif")
+    for o in outs:
+        g.out(o)
+    g.feat.add("two-groups")
+    g.feat.add("group")
+    g.feat.add("resets" if resets else "no-resets")
+    return dict(template="two_groups", expect="ok", warm=False, claim="every-cycle")
 
 
 def t_autostate(g, movable):
@@ -414,6 +460,7 @@ def t_negreg(g):
 TEMPLATES = [
     ("stateless", 30, lambda g: t_pipeline(g, ff=False)),
     ("feedforward", 16, lambda g: t_pipeline(g, ff=True)),
+    ("two_groups", 6, t_two_groups),
     ("autostate_movable", 6, lambda g: t_autostate(g, True)),
     ("autostate_anchored", 4, lambda g: t_autostate(g, False)),
     ("movable_fwd", 18, t_movable_fwd),
